@@ -341,9 +341,16 @@ class Ctx:
         ev = {"property_id": self.prop, "tier": self.tier, "seed": int(self.seed), "level": self.level,
               "coverage": cov, "assumptions": self.assumptions, "wall_s": round(time.time() - self.t0, 2),
               "violations": len(self.violations) + (1 if (broken_notes and not self.violations) else 0)}
-        json.dump(ev, open(os.path.join(VERIF, "evidence", self.prop + ".json"), "w"), indent=1, default=str)
+        # evidence/<id>.json describes the tree under /repo; a run against another tree (VERIF_REPO, used by the seeded /
+        # harmless campaigns) keeps its evidence in its scratch directory, which is removed unless VERIF_KEEP_WORK is set
+        alt = self.repo != "/repo"
+        evpath = os.path.join(self.work, "evidence.json") if alt else os.path.join(VERIF, "evidence", self.prop + ".json")
+        json.dump(ev, open(evpath, "w"), indent=1, default=str)
         if rc == 0:
             print("OK property=%s tier=%s obligations=%d cases=%d wall=%.1fs" % (self.prop, self.tier, self.obligations, evaluations, time.time() - self.t0))
+        if alt and not os.environ.get("VERIF_KEEP_WORK"):
+            import shutil
+            shutil.rmtree(self.work, ignore_errors=True)
         sys.exit(rc)
 
 
